@@ -83,7 +83,10 @@ def runTokens (s : St) : List String → List String → List String
   | t :: rest, acc =>
     match parseLabel t with
     | none => ("bad-label" :: acc).reverse
-    | some l => let s' := step s l; runTokens s' rest (token s s' l :: acc)
+    | some l =>
+      let s' := step s l
+      let locks := (if s'.plock.isSome then "+" else "") ++ (if s'.poplock.isSome then "*" else "")
+      runTokens s' rest ((token s s' l ++ locks) :: acc)
 
 /-- `sched <id> init,cap,start,nprod label …` for the current code; stream `sched-<plock><rfix>` for
 an earlier version (used by the witness replays) -/
